@@ -81,6 +81,33 @@ Fixpoint quiet_stmt (s : rstmt) : bool :=
 Definition quiet_list (l : list rstmt) : bool := forallb quiet_stmt l.
 Definition quiet_prog (p : rprog) : bool := forallb (fun nb => quiet_list (snd nb)) p.
 
+(* ---- the same scan written as ONE step over a statement, given what the statement lists inside it contribute ([go]) and what
+   invoked kernels contribute ([inv]); the translator of analysis/runtime.py (harness/gen/runtime_translate.py) emits this step from
+   the handlers' source and proves it equal to [step_model] on every run ---- *)
+Definition step_model (inv : string -> seen) (go : list rstmt -> seen) (s : rstmt) : seen :=
+  match s with
+  | RDev => mkseen true false
+  | RIf t e => seen_or (go t) (go e)
+  | RFor b => go b
+  | RInvoke m => inv m
+  | RCallLam (Some b) => go b
+  | RCallLam None => mkseen false true
+  end.
+
+(* ilist.map / for_each / foldl / foldr / scan: the function operand as the const hint describes it; the harness abstracts the
+   statement as a loop around one call *)
+Inductive hcallee := HMethod (m : string) | HLambda (b : list rstmt) | HUnknown.
+Definition abs_higher (c : hcallee) : rstmt :=
+  RFor [match c with HMethod m => RInvoke m | HLambda b => RCallLam (Some b) | HUnknown => RCallLam None end].
+Definition higher_model (inv : string -> seen) (go : list rstmt -> seen) (c : hcallee) : seen :=
+  match c with HMethod m => inv m | HLambda b => go b | HUnknown => mkseen false true end.
+
+Definition answer_of (s : seen) : answer := if s_dyn s then ARefuse else if s_dev s then ATrue else AFalse.
+
 Local Open Scope string_scope.
+(* the statements whose "runtime" handler marks the frame (RDev), and the higher-order list statements, by class name *)
+Definition device_statements : list string :=
+  ["Fill"; "GlobalR"; "GlobalRz"; "LocalR"; "LocalRz"; "Measure"; "Play"; "TopHatCZ"].
+Definition higher_order_statements : list string := ["Foldl"; "Foldr"; "ForEach"; "Map"; "Scan"].
 Definition show_answer (a : answer) : string :=
   match a with ATrue => "True" | AFalse => "False" | ARefuse => "refuses" end.
